@@ -1,87 +1,138 @@
 /-
-C09 — marshal / unmarshal round trips.  Property theorems only.
+C09 — marshal / unmarshal round trips.  Property theorems only (proofs of the lemmas live in JanetModel/Marsh/*Lemmas.lean,
+GraphRoundtrip.lean, GraphInbounds.lean).
+
+Model: JanetModel/Marsh/IntCodec.lean (pushint/readint), Size.lean (push64/read64), Graph.lean (marshal_one /
+unmarshal_one on data value graphs).  Constants, lead bytes, the recursion guard and the numbering point of every
+container type (before / after its children, on the marshal side and on the unmarshal side) are regenerated from
+marsh.c on every run (Gen/Marsh.lean), so e.g. moving MARK_SEEN for tuples breaks `roundtrip_graph` below.
 -/
-import JanetModel.Marsh.IntCodec
+import JanetModel.Marsh.IntCodecLemmas
+import JanetModel.Marsh.SizeLemmas
+import JanetModel.Marsh.GraphRoundtrip
+import JanetModel.Marsh.GraphInbounds
 
 namespace JanetModel.Props.C09
 open JanetModel.Marsh JanetModel.Gen.Marsh
 
+/-! ### integer codec -/
+
 theorem signExtMid_eq (u : Nat) (h : u < 16384) :
-    signExtMid u = if u < 8192 then (u : Int) else (u : Int) - 16384 := by
-  unfold signExtMid toI32
-  simp only [readSignThresh, readSignSub]
-  by_cases c1 : u / 8192 ≠ 0
-  · rw [if_pos c1]
-    have c2 : ¬ (u + (4294967296 - 16384) < 2147483648) := by omega
-    have c3 : ¬ (u < 8192) := by omega
-    rw [if_neg c2, if_neg c3]; omega
-  · have c3 : u < 8192 := by omega
-    rw [if_neg c1, if_pos c3]
+    signExtMid u = if u < 8192 then (u : Int) else (u : Int) - 16384 := Marsh.signExtMid_eq u h
 
 /-- Every `int32_t` survives `pushint` then `readint`, whatever follows it in the buffer. -/
 theorem readint_pushint (x : Int) (tl : List Nat) (hlo : -2147483648 ≤ x) (hhi : x < 2147483648) :
-    readint (pushint x ++ tl) = some (x, tl) := by
-  unfold pushint
-  simp only [pushSmallLim, pushMidHi, pushMidLo, pushMidDiv, pushMidMod, pushMidTag, pushLowMod, lb_integer]
-  by_cases h1 : 0 ≤ x ∧ x < 128
-  · simp only [h1, and_self, if_true, List.cons_append, List.nil_append, readint, readSmallLim]
-    have : x.toNat < 128 := by omega
-    simp [this]; omega
-  · by_cases h2 : x ≤ 8191 ∧ x ≥ -8192
-    · simp only [h1, h2, and_self, if_true, if_false, List.cons_append, List.nil_append, readint, readSmallLim,
-        readMidLim, readMidMod, readMidMul, toI32]
-      have e0 : ¬ ((x / 256 % 64).toNat + 128 < 128) := by omega
-      have e1 : ((x / 256 % 64).toNat + 128 < 192) := by omega
-      simp only [e0, e1, if_true, if_false]
-      congr 1
-      simp only [Prod.mk.injEq, and_true]
-      rw [signExtMid_eq _ (by omega)]
-      by_cases c1 : ((x / 256 % 64).toNat + 128) % 64 * 256 + (x % 256).toNat < 8192
-      · rw [if_pos c1]; omega
-      · rw [if_neg c1]; omega
-    · simp only [h1, h2, if_false, List.cons_append, List.nil_append, readint, readSmallLim, readMidLim,
-        lb_integer, toI32]
-      simp only [show ¬ (205 < 128) by decide, show ¬ (205 < 192) by decide, if_false, if_true]
-      congr 1
-      simp only [Prod.mk.injEq, and_true]
-      split <;> omega
+    readint (pushint x ++ tl) = some (x, tl) := Marsh.readint_pushint x tl hlo hhi
 
 /-- The three encodings are the shortest-first partition of int32 (sizes 1, 2, 5). -/
 theorem pushint_length (x : Int) :
-    (pushint x).length = if 0 ≤ x ∧ x < 128 then 1 else if -8192 ≤ x ∧ x ≤ 8191 then 2 else 5 := by
-  unfold pushint
-  simp only [pushSmallLim, pushMidHi, pushMidLo]
-  by_cases h1 : 0 ≤ x ∧ x < 128
-  · simp [h1]
-  · by_cases h2 : x ≤ 8191 ∧ x ≥ -8192
-    · have h3 : -8192 ≤ x ∧ x ≤ 8191 := ⟨h2.2, h2.1⟩
-      simp [h1, h2]
-    · have h3 : ¬(-8192 ≤ x ∧ x ≤ 8191) := fun h => h2 ⟨h.2, h.1⟩
-      simp [h1, h2, h3]
+    (pushint x).length = if 0 ≤ x ∧ x < 128 then 1 else if -8192 ≤ x ∧ x ≤ 8191 then 2 else 5 := Marsh.pushint_length x
 
 /-- `readint` is total and never consumes more than it was given (no read past the end). -/
 theorem readint_consumes (bs : List Nat) (x : Int) (tl : List Nat) (h : readint bs = some (x, tl)) :
-    ∃ pre, bs = pre ++ tl ∧ 1 ≤ pre.length ∧ pre.length ≤ 5 := by
-  unfold readint at h
-  split at h
-  · simp at h
-  · rename_i b rest
-    split at h
-    · simp at h; exact ⟨[b], by simp [h.2]⟩
-    · split at h
-      · split at h
-        · simp at h
-        · rename_i c rest'
-          simp at h; exact ⟨[b, c], by simp [h.2]⟩
-      · split at h
-        · split at h
-          · rename_i b1 b2 b3 b4 rest'
-            simp at h; exact ⟨[b, b1, b2, b3, b4], by simp [h.2]⟩
-          · simp at h
-        · simp at h
+    ∃ pre, bs = pre ++ tl ∧ 1 ≤ pre.length ∧ pre.length ≤ 5 := Marsh.readint_consumes bs x tl h
+
+/-! ### size codec (int/s64, int/u64, channel and peg payloads) -/
+
+/-- Every `uint64_t` survives `push64` then `read64`, whatever follows it in the buffer. -/
+theorem read64_push64 (x : Nat) (tl : List Nat) (h : x < 18446744073709551616) :
+    read64 (push64 x ++ tl) = some (x, tl) := Marsh.read64_push64' x tl h
+
+/-! ### data value graphs
+
+A graph is a value `x` plus a heap `H` listed in reference-number order (see Graph.lean): isomorphism of graphs -
+same shape, same sharing, same cycles - is equality of `(x, H)`.  `HeapWF` / `ValWF` say what the C types guarantee
+(int32 ranges, 8-byte reals, tables and structs are finite maps without nil keys or values). -/
+
+/-- **Round trip, with sharing and cycles, at any recursion depth, for any continuation of the buffer.**
+If `marshal_one` at depth budget `fuel`, with `n` values already numbered, emits `bs` and numbers the objects
+`n .. n'-1`, then `unmarshal_one` with the same budget and `n` values already in its lookup table reads exactly `bs`,
+returns the same value and appends exactly the objects `n .. n'-1` of the heap to the lookup table - contents, order,
+internal pointers (i.e. sharing and cycles) included. -/
+theorem roundtrip_graph (H : List Obj) (hH : HeapWF H) (fuel n : Nat) (x : Val) (bs : List Nat) (n' : Nat) (tl : List Nat)
+    (hn : n ≤ H.length) (hx : ValWF x) (hm : marshalOne fuel H n x = some (bs, n')) :
+    unmarshalOne fuel n (bs ++ tl) = some (x, tl, slice H n n') :=
+  (one_roundtrip H hH fuel n x bs n' tl hn hx hm).2.2.2
+
+/-- Key lemma (`ids_agree`): the k-th value numbered while marshalling is the k-th value pushed into the lookup table while
+unmarshalling - after any value, the unmarshaller's table has grown by exactly the number of ids the marshaller handed out. -/
+theorem ids_agree (H : List Obj) (hH : HeapWF H) (fuel n : Nat) (x : Val) (bs : List Nat) (n' : Nat) (tl : List Nat)
+    (hn : n ≤ H.length) (hx : ValWF x) (hm : marshalOne fuel H n x = some (bs, n')) :
+    ∃ objs, unmarshalOne fuel n (bs ++ tl) = some (x, tl, objs) ∧ n + objs.length = n' ∧
+      ∀ k, k < objs.length → objs[k]? = H[n + k]? := by
+  obtain ⟨h1, h2, _, h4⟩ := one_roundtrip H hH fuel n x bs n' tl hn hx hm
+  refine ⟨slice H n n', h4, ?_, ?_⟩
+  · rw [slice_length H n n' h2]; omega
+  · intro k hk
+    rw [slice_length H n n' h2] at hk
+    unfold slice
+    rw [List.getElem?_take_of_lt hk, List.getElem?_drop]
+
+/-- Entry points: `janet_unmarshal (janet_marshal x)` gives back the value and the whole reachable heap, and reads exactly
+the bytes that were written.  (`marshalOne … = some (bs, H.length)`: every object of the description was numbered, i.e.
+the heap contains no garbage.) -/
+theorem roundtrip_graph_top (H : List Obj) (hH : HeapWF H) (x : Val) (hx : ValWF x) (bs : List Nat)
+    (hm : marshalOne topFuel H 0 x = some (bs, H.length)) :
+    marshal H x = some bs ∧ unmarshal bs = some (x, H, bs.length) := by
+  refine ⟨by simp [marshal, hm], ?_⟩
+  have h := roundtrip_graph H hH topFuel 0 x bs H.length [] (Nat.zero_le _) hx hm
+  simp only [List.append_nil] at h
+  simp [unmarshal, h, slice]
+
+/-- Acyclic, unshared data is the special case in which no `LB_REFERENCE` is emitted; it needs no separate statement.
+This corollary records the form the DESIGN calls `roundtrip_tree`: whenever marshalling succeeds, decoding the bytes
+(followed by anything) succeeds, and marshalling the decoded graph again gives the same bytes. -/
+theorem roundtrip_tree (H : List Obj) (hH : HeapWF H) (x : Val) (hx : ValWF x) (bs : List Nat) (n' : Nat) (tl : List Nat)
+    (hm : marshalOne topFuel H 0 x = some (bs, n')) :
+    ∃ H', unmarshalOne topFuel 0 (bs ++ tl) = some (x, tl, H') ∧ H' = H.take n' := by
+  refine ⟨slice H 0 n', roundtrip_graph H hH topFuel 0 x bs n' tl (Nat.zero_le _) hx hm, by simp [slice]⟩
+
+/-- **The decoder never reads past the end** (and always makes progress): whatever `unmarshal_one` returns as the
+unread rest is a strict suffix of its input; in particular it is total on every byte string (it is a Lean function) and
+every byte it inspected was inside the buffer (it pattern-matches on the list). -/
+theorem read_total_inbounds (fuel n : Nat) (data : List Nat) (v : Val) (rest : List Nat) (objs : List Obj)
+    (h : unmarshalOne fuel n data = some (v, rest, objs)) :
+    ∃ pre, data = pre ++ rest ∧ 1 ≤ pre.length := by
+  obtain ⟨⟨pre, hp⟩, hl⟩ := unmarshalOne_tail fuel n data v rest objs h
+  refine ⟨pre, hp.symm, ?_⟩
+  rw [← hp] at hl; simp at hl; omega
+
+/-- Truncated input is rejected, not over-read: the empty buffer decodes to nothing at every depth. -/
+theorem unmarshal_nil (fuel n : Nat) : unmarshalOne fuel n [] = none := by
+  cases fuel <;> simp [unmarshalOne]
 
 /-- non-vacuity: boundary values of each width -/
 example : readint (pushint (-8193) ++ [7]) = some (-8193, [7]) := by decide
 example : pushint 8191 = [159, 255] ∧ pushint (-8192) = [160, 0] ∧ pushint 128 = [128, 128] := by decide
+
+/-- non-vacuity of the size codec at the one-byte / multi-byte boundary and at 2^64-1 -/
+example : push64 240 = [240] ∧ push64 241 = [241, 241] ∧ push64 18446744073709551615 = [248, 255, 255, 255, 255, 255, 255, 255, 255] := by decide
+
+/-- non-vacuity of the graph theorem: an array that contains itself and (twice) a bracket tuple that points back to the
+array; the hypotheses of `roundtrip_graph_top` hold and the wire bytes are the ones janet produces. -/
+def exHeap : List Obj := [.array false [.int 1, .ref 0, .ref 1, .ref 1], .tuple 1 [.int 300, .ref 0]]
+
+example : HeapWF exHeap := by
+  refine ⟨by decide, ?_⟩
+  intro o ho
+  simp only [exHeap, List.mem_cons, List.mem_nil_iff, or_false] at ho
+  rcases ho with rfl | rfl
+  · refine ⟨by decide, ?_⟩
+    intro v hv
+    simp only [List.mem_cons, List.mem_nil_iff, or_false] at hv
+    rcases hv with rfl | rfl | rfl | rfl <;> simp [ValWF, Marsh.Int32]
+  · refine ⟨by simp [Marsh.Int32], by decide, ?_⟩
+    intro v hv
+    simp only [List.mem_cons, List.mem_nil_iff, or_false] at hv
+    rcases hv with rfl | rfl <;> simp [ValWF, Marsh.Int32]
+
+example : marshalOne topFuel exHeap 0 (.ref 0) = some ([209, 4, 1, 218, 0, 210, 2, 1, 129, 44, 218, 0, 218, 1], 2) := by decide
+
+/-- a table whose prototype is itself and which is its own key -/
+example : marshalOne topFuel [.table 0 (some (.ref 0)) [(.ref 0, .int 7)]] 0 (.ref 0) = some ([212, 1, 218, 0, 218, 0, 7], 1) := by decide
+
+/-- heaps that are not in reference-number order are rejected by the model (so the hypothesis of the theorems is not vacuous
+for the wrong reason) -/
+example : marshalOne topFuel [.tuple 0 [.ref 1], .array false []] 0 (.ref 0) = none := by decide
 
 end JanetModel.Props.C09
